@@ -5,7 +5,7 @@ to_er7() is compared with the model's encoding.
 """
 import itertools
 
-from .. import tables, gen, hist
+from .. import tables, gen, hist, er7ref
 from . import c02
 
 ID = 'C09'
@@ -435,6 +435,61 @@ def check_typed_copy(core, v, level, rec, rng):
             rec.violation('typed-copy-raised:%s' % type(e).__name__, case, {'exc': repr(e)[:160]})
 
 
+def check_cross_delimiter_copy(core, v, level, rec, rng):
+    """a child taken from a message that uses OTHER delimiters is copied by value: in the receiving message it encodes the
+    same leaves at the same places with the RECEIVER's delimiters, and the source is left as it was - by proxy, by element,
+    by field and into an existing segment"""
+    ec_dst = gen.delimiter_set(rng, v, with_truncation=False)
+    ec_src = gen.delimiter_set(rng, v, with_truncation=False) if rng.random() < 0.5 else None
+    src_chars = gen.full_ec(ec_src) if ec_src else er7ref.STD
+    if any(ec_dst[k] in 'abcdxyz0123456789' for k in ('FIELD', 'COMPONENT', 'SUBCOMPONENT', 'REPETITION', 'ESCAPE')) or \
+            any(src_chars[k] in 'abcdxyz0123456789' for k in ('FIELD', 'COMPONENT', 'SUBCOMPONENT', 'REPETITION', 'ESCAPE')):
+        return
+
+    def line(ch, n):
+        return 'PID' + ch['FIELD'] * 3 + 'a%d' % n + ch['COMPONENT'] + 'b' + ch['REPETITION'] + 'c' + ch['COMPONENT'] + 'd' + \
+            ch['FIELD'] * 2 + 'x%d' % n + ch['COMPONENT'] + 'y' + ch['SUBCOMPONENT'] + 'z'
+    n = rng.randrange(1000)
+    for how in ('proxy', 'element', 'field', 'field-into-existing'):
+        case = {'kind': 'cross-delimiter-copy', 'version': v, 'level': level, 'how': how,
+                'ec_dst': {k: x for k, x in ec_dst.items() if k not in ('SEGMENT', 'GROUP')},
+                'ec_src': {k: x for k, x in (ec_src or {}).items() if k not in ('SEGMENT', 'GROUP')} or None}
+        rec.evaluation(('cross-delimiter-copy', v, level, how, hooks_ec(ec_dst), hooks_ec(ec_src)))
+        try:
+            try:
+                kw = {'encoding_chars': dict(ec_src)} if ec_src else {}
+                m2 = core.Message('ADT_A01', version=v, validation_level=level, **kw)
+                m2.pid = line(src_chars, n)
+                # the same segment written with the receiver's delimiters must be acceptable to the receiver at all
+                probe = core.Message('ADT_A01', version=v, validation_level=level, encoding_chars=dict(ec_dst))
+                probe.pid = line(gen.full_ec(ec_dst), n)
+                ok = m2.pid.to_er7() == line(src_chars, n) and probe.pid.to_er7() == line(gen.full_ec(ec_dst), n)
+            except Exception:
+                ok = False
+            if not ok:
+                rec.count('cross_delimiter_source_not_judgeable')
+                continue
+            m1 = core.Message('ADT_A01', version=v, validation_level=level, encoding_chars=dict(ec_dst))
+            want = line(gen.full_ec(ec_dst), n)
+            if how == 'proxy':
+                m1.pid = m2.pid
+            elif how == 'element':
+                m1.pid = m2.pid[0]
+            else:
+                if how == 'field-into-existing':
+                    m1.pid = 'PID' + ec_dst['FIELD'] * 5 + 'old'
+                m1.pid.pid_5 = m2.pid.pid_5
+                m1.pid.pid_3 = m2.pid.pid_3[0]
+                m1.pid.add(core.Field('PID_3', version=v, validation_level=level))
+                m1.pid.pid_3[1] = m2.pid.pid_3[1]
+            rec.count('cross_delimiter_copies_compared')
+            if m1.pid.to_er7() != want or m2.pid.to_er7() != line(src_chars, n):
+                rec.violation('copy-between-messages-with-different-delimiters-differs', case,
+                              {'copy': m1.pid.to_er7()[:120], 'want': want[:120], 'source_afterwards': m2.pid.to_er7()[:120]})
+        except Exception as e:
+            rec.violation('cross-delimiter-copy-raised:%s' % type(e).__name__, case, {'exc': repr(e)[:160]})
+
+
 def check_children_iterables(core, v, level, rec, rng):
     """`element.children = <iterable>` holds the children the iterable yields, whatever kind of iterable it is (list, tuple,
     generator, iterator): same encoding as adding them one by one"""
@@ -486,6 +541,7 @@ def run_groupcopy(spec, rec):
             check_children_iterables(core, v, 1 + (i // 6) % 2, rec, rng)
         if i % 2 == 0:
             check_typed_copy(core, v, 1 + (i // 2) % 2, rec, rng)
+        check_cross_delimiter_copy(core, v, 1 + i % 2, rec, rng)
         if i % 3 == 0:
             check_group_copy_profile(core, v, 1 + (i // 3) % 2, ('proxy', 'element', 'text')[(i // 3) % 3], rec, rng)
     rec.seen('versions', v)
